@@ -3,6 +3,7 @@ package chainsim
 import (
 	"bytes"
 	"fmt"
+	"sync"
 
 	"github.com/canopy-network/canopy/fsm"
 	"github.com/canopy-network/canopy/lib"
@@ -28,11 +29,26 @@ machines:
 // maxKeyIndex bounds the search for the deterministic key behind a public key.
 const maxKeyIndex = 64
 
+var (
+	blsMu    sync.Mutex
+	blsByPub = map[string]crypto.PrivateKeyI{}
+	blsNext  int
+)
+
 // blsKeyFor finds the deterministic BLS key (keys.BLS(i)) for a public key.
 func blsKeyFor(pub []byte) (crypto.PrivateKeyI, bool) {
-	for i := 0; i < maxKeyIndex; i++ {
-		if bytes.Equal(keys.BLS(i).PublicKey().Bytes(), pub) {
-			return keys.BLS(i), true
+	blsMu.Lock()
+	defer blsMu.Unlock()
+	if k, ok := blsByPub[string(pub)]; ok {
+		return k, true
+	}
+	for ; blsNext < maxKeyIndex; blsNext++ {
+		k := keys.BLS(blsNext)
+		p := k.PublicKey().Bytes()
+		blsByPub[string(p)] = k
+		if bytes.Equal(p, pub) {
+			blsNext++
+			return k, true
 		}
 	}
 	return nil, false
